@@ -62,6 +62,29 @@ static inline char *str_t__op_index(str_t *s, size_t i)
 { __CPROVER_assert(i < s->size, "string index in range"); return &s->data[i]; }
 static inline str_t *str_t__op_addassign_char(str_t *s, char c)
 { __CPROVER_assert(s->size < s->cap, "model limit: string capacity"); s->data[s->size] = c; s->size = s->size + 1; return s; }
+static inline char *str_t__op_index_unsigned_long(str_t *s, size_t i) { return str_t__op_index(s, i); }
+/* string iterators and the erase(remove_if(begin, end, pred), end) idiom */
+typedef struct { str_t *s; size_t i; } str_t_iter;
+static inline str_t_iter str_t__begin(str_t *s) { str_t_iter r; r.s = s; r.i = 0; return r; }
+static inline str_t_iter str_t__end(str_t *s) { str_t_iter r; r.s = s; r.i = s->size; return r; }
+#ifndef STR_LOOP_MAX
+#define STR_LOOP_MAX 128
+#endif
+/* std::remove_if: keeps, in order, the characters for which pred is false; returns the new logical end */
+static inline str_t_iter remove_if(str_t_iter first, str_t_iter last, _Bool (*pred)(char))
+{
+  __CPROVER_assert(first.s == last.s && first.i <= last.i && last.i <= first.s->size, "remove_if: valid range of one string");
+  size_t w = first.i;
+  for (size_t k = first.i; k < last.i; k++) { char ch = first.s->data[k]; if (!pred(ch)) { first.s->data[w] = ch; w = w + 1; } }
+  str_t_iter r; r.s = first.s; r.i = w; return r;
+}
+static inline void str_t__erase(str_t *s, str_t_iter first, str_t_iter last)
+{
+  __CPROVER_assert(first.s == s && last.s == s && first.i <= last.i && last.i <= s->size, "erase: valid range of this string");
+  size_t cnt = last.i - first.i;
+  for (size_t k = last.i; k < s->size; k++) s->data[k - cnt] = s->data[k];
+  s->size = s->size - cnt;
+}
 /* literals appended by the extracted text have at most 4 characters */
 static inline str_t *str_t__op_addassign_cstr(str_t *s, const char *lit)
 {
